@@ -93,8 +93,10 @@ def check_lazy_attributes(ctx, rule, rel, cls, methods):
             if isinstance(a, ast.Name):
                 return from_attr.get(a.id)
             return None
-        des = [c for c in ast.walk(f) if isinstance(c, ast.Call) and isinstance(c.func, ast.Attribute) and c.func.attr == "deserialize"
-               and any(attr_of(a) for a in c.args)]
+        # (the parser may also be handed, as a value, to a helper that applies it: `helper(self._x, X.deserialize, ..)`)
+        des = [c for c in ast.walk(f) if isinstance(c, ast.Call) and any(attr_of(a) for a in c.args)
+               and (isinstance(c.func, ast.Attribute) and c.func.attr == "deserialize"
+                    or any(isinstance(a, ast.Attribute) and a.attr == "deserialize" for a in c.args))]
         if not des:
             continue
         for c in des:
